@@ -96,25 +96,41 @@ def headAt (G : MG) (x y : Nat) : Bool := mark G x y == some .head
 /-- `y` is a (definite) parent of `c`: `y -> c` -/
 def parentOf (G : MG) (y c : Nat) : Bool := mark G y c == some .head && mark G c y == some .tail
 
-/-- every inner node of the list is a collider on it and a parent of `c` -/
-def innerColl (G : MG) (c : Nat) : List Nat → Bool
-  | x :: y :: z :: t => headAt G x y && headAt G z y && parentOf G y c && innerColl G c (y :: z :: t)
+/-- every inner node of the list is a collider on it and satisfies the parent test `par` -/
+def innerColl (G : MG) (par : Nat → Bool) : List Nat → Bool
+  | x :: y :: z :: t => headAt G x y && headAt G z y && par y && innerColl G par (y :: z :: t)
   | _ => true
 
-/-- `p = (v, …, a, u, c)` is a discriminating path for `u`: at least three edges, no repeated node,
-    consecutive nodes adjacent, every node strictly between `v` and `u` is a collider on the path and
-    a parent of `c`, and `v` is not adjacent to `c`.  (The inner nodes of `p.dropLast = (v,…,a,u)` are
-    exactly the nodes between v and u.) -/
-def DiscPath (G : MG) (u a c : Nat) (p : List Nat) : Prop :=
+/-- `p = (v, …, a, u, c)`: at least three edges, no repeated node, consecutive nodes adjacent, every
+    node strictly between `v` and `u` is a collider on the path and passes `par`, and `v` is not
+    adjacent to `c`.  (The inner nodes of `p.dropLast = (v,…,a,u)` are exactly the nodes between v
+    and u.) -/
+def DiscPathP (G : MG) (par : Nat → Bool) (u a c : Nat) (p : List Nat) : Prop :=
   4 ≤ p.length ∧ p.Nodup ∧
   p.getLast? = some c ∧ p.dropLast.getLast? = some u ∧ p.dropLast.dropLast.getLast? = some a ∧
   chainB (adj G) p = true ∧
-  innerColl G c p.dropLast = true ∧
+  innerColl G par p.dropLast = true ∧
   (∀ v, p.head? = some v → adj G v c = false)
 
-instance (G : MG) (u a c : Nat) (p : List Nat) : Decidable (DiscPath G u a c p) := by
-  unfold DiscPath
+instance (G : MG) (par : Nat → Bool) (u a c : Nat) (p : List Nat) : Decidable (DiscPathP G par u a c p) := by
+  unfold DiscPathP
   cases p.head? <;> simp only [reduceCtorEq, false_imp_iff, implies_true, Option.some.injEq, forall_eq'] <;> infer_instance
+
+/-- **discriminating path for `u`**: every node between `v` and `u` is a collider on the path and a
+    parent of `c` -/
+def DiscPath (G : MG) (u a c : Nat) (p : List Nat) : Prop :=
+  DiscPathP G (fun y => parentOf G y c) u a c p
+
+instance (G : MG) (u a c : Nat) (p : List Nat) : Decidable (DiscPath G u a c p) := by
+  unfold DiscPath; infer_instance
+
+/-- what the code guarantees (known finding `C18-disc-a-possible-parent`): for the node `a` itself only
+    an arrowhead at `c` is tested, so `a o-> c` passes -/
+def DiscPathWeak (G : MG) (u a c : Nat) (p : List Nat) : Prop :=
+  DiscPathP G (fun y => parentOf G y c || (y == a && hD G y c)) u a c p
+
+instance (G : MG) (u a c : Nat) (p : List Nat) : Decidable (DiscPathWeak G u a c p) := by
+  unfold DiscPathWeak; infer_instance
 
 /-! ## brute-force deciders (oracles): enumerate the simple paths of the skeleton -/
 
